@@ -456,7 +456,8 @@ example : stagesOf cfgX ⟨["hostname".toList, "ip".toList, "ipv6".toList, "mac"
 
 The theorems above are for the plain substitution mode.  In width mode `_sub_ip_keep_width` deletes characters of the
 line, so original runs can JOIN and no `Shrinks` statement holds; the mode is tied by correspondence only.  The clause
-itself fails there (known finding width-mode-eats-text): -/
+itself fails there (known finding width-mode-eats-text) — also when only a BLANK is deleted: `155.25.0.25x- 70-F4-…`
+becomes `10.230.230.1x-70-F4-…`, the MAC then follows `-` and is not recognised (corpus witness, line 0): -/
 
 /-- the MAC clause with the code's own delimiter class, for a call in width mode: an address delimited on the line as
 the IPv4 stage receives it has no all-original occurrence after the IPv4 and MAC stages -/
